@@ -35,30 +35,44 @@ class Hooks:
 
         self.ac, self.fc, self.la, self.sy = ac, fc, la, sy
         self.installed = []
+        # internals a hook needs but the library (after a refactoring) no longer has: the hook
+        # is then skipped and counted, the black-box monitors go on
+        self.unavailable = set()
+
+    def _missing(self, what):
+        self.unavailable.add(what)
+        self.ctx.count("hook_unavailable", what)
 
     # ---- H1 ----------------------------------------------------------------------------
     def install_plan_hook(self, on_violation=None):
         ac = self.ac
         ctx = self.ctx
+        if not all(hasattr(ac, n) for n in ("cached_fuse_block_info", "calc_fuse_group_info", "calc_fuse_block_info")):
+            self._missing("plan-hook")
+            return
         orig = ac.cached_fuse_block_info
         raw_group = getattr(ac.calc_fuse_group_info, "__wrapped__", ac.calc_fuse_group_info)
 
         @functools.wraps(orig)
         def wrapped(arr, axes_groups):
-            hit0 = ac._fi_hit
+            hit0 = getattr(ac, "_fi_hit", 0)
             res = orig(arr, axes_groups)
-            was_hit = ac._fi_hit > hit0
+            was_hit = getattr(ac, "_fi_hit", 0) > hit0
             saved = ac.calc_fuse_group_info
             ac.calc_fuse_group_info = raw_group
             try:
                 fresh = ac.calc_fuse_block_info(arr, axes_groups)
+                a, b = plan_sig(res), plan_sig(fresh)
+            except Exception:
+                # the internals no longer look the way this hook assumes: no verdict from it
+                ctx.count("hook_unavailable", "plan-compare-failed")
+                return res
             finally:
                 ac.calc_fuse_group_info = saved
             ctx.count("hook", "plan-compared")
             if was_hit:
                 ctx.count("hook", "plan-cache-hit")
-            if plan_sig(res) != plan_sig(fresh):
-                a, b = plan_sig(res), plan_sig(fresh)
+            if a != b:
                 names = ["num_groups", "group_singlets", "perm", "position", "axes_before", "axes_after", "new_axes", "new_indices", "blockmap"]
                 which = [n for n, x, y in zip(names, a, b) if x != y]
                 msg = f"cached fuse plan differs from a fresh computation in {which} (cache hit={was_hit}); groups={axes_groups}"
@@ -86,9 +100,10 @@ class Hooks:
             (self.la, "calc_sub_max_bonds"),
         ]
         for mod, name in targets:
-            fn = getattr(mod, name)
+            fn = getattr(mod, name, None)
             raw = getattr(fn, "__wrapped__", None)
-            if raw is None:
+            if fn is None or raw is None or not hasattr(fn, "cache_clear"):
+                self._missing(f"lru:{name}")
                 continue
 
             def make(fn, raw, name):
@@ -126,6 +141,9 @@ class Hooks:
 
     # ---- H3 ----------------------------------------------------------------------------
     def set_cache(self, maxsize=None, maxsectors=None, clear=False):
+        if not all(hasattr(self.ac, n) for n in ("_fuseinfos", "_fuseinfo_cache_maxsize", "_fuseinfo_cache_maxsectors")):
+            self._missing("cache-globals")
+            return
         if maxsize is not None:
             self.ac._fuseinfo_cache_maxsize = maxsize
         if maxsectors is not None:
@@ -136,15 +154,22 @@ class Hooks:
             self.ac._fuseinfos.popitem(last=False)
 
     def clear_all_caches(self):
-        self.ac._fuseinfos.clear()
+        if hasattr(self.ac, "_fuseinfos"):
+            self.ac._fuseinfos.clear()
+        else:
+            self._missing("cache-globals")
         for mod, name in [(self.ac, "calc_reshape_args"), (self.ac, "calc_fuse_group_info"), (self.sy, "sign_scalar"), (self.sy, "sign_tuple"), (self.sy, "calc_phase_permutation"), (self.la, "calc_sub_max_bonds")]:
-            getattr(mod, name).cache_clear()
+            cc = getattr(getattr(mod, name, None), "cache_clear", None)
+            if cc is not None:
+                cc()
 
     def default_mode(self):
-        return self.ac._DEFAULT_TENSORDOT_MODE
+        if hasattr(self.ac, "_DEFAULT_TENSORDOT_MODE"):
+            return self.ac._DEFAULT_TENSORDOT_MODE
+        return self.sr.get_default_tensordot_mode()
 
     def cache_len(self):
-        return len(self.ac._fuseinfos)
+        return len(getattr(self.ac, "_fuseinfos", ()))
 
 
 # ---- key-collision hunt ------------------------------------------------------------------
@@ -163,6 +188,9 @@ def key_collision_hunt(ctx, hooks, rng, ncalls):
     ac = hooks.ac
     sr = ctx.sr
     nd = 7
+    if not all(hasattr(ac, n) for n in ("hasher", "calc_fuse_block_info", "cached_fuse_block_info", "_fuseinfos", "_fuseinfo_cache_maxsize")):
+        hooks._missing("key-collision-hunt")
+        return None
 
     def new_subject():
         sym = rng.choice(["Z2", "Z2", "U1", "Z2Z2"])
